@@ -1,4 +1,5 @@
 import OxiVerif.Model.C12
+import OxiVerif.Model.C12Cff
 import Mathlib.Data.List.Perm.Subperm
 import Mathlib.Data.List.Nodup
 set_option linter.unusedSimpArgs false
